@@ -157,8 +157,11 @@ def band(base, i):
 def mk(data, job, chunks=None):
     H, W = data.shape
     coords = {}
+    dy, dx = job.get("dims") or ["y", "x"]
+    if job["func"] in ("true_color",):      # true_color reads r['y'] / r['x'] by name
+        dy, dx = "y", "x"
     if job.get("xs") is not None:
-        coords = {"y": np.array(job["ys"], dtype=np.float64), "x": np.array(job["xs"], dtype=np.float64)}
+        coords = {dy: np.array(job["ys"], dtype=np.float64), dx: np.array(job["xs"], dtype=np.float64)}
     attrs = {}
     if job.get("res") is not None:
         attrs["res"] = tuple(job["res"])
@@ -166,7 +169,7 @@ def mk(data, job, chunks=None):
     d = apply_layout(data.astype(job["dtype"]), job.get("layout"))
     if chunks is not None:
         d = da.from_array(d, chunks=(tuple(chunks[0]), tuple(chunks[1])))
-    return xr.DataArray(d, dims=["y", "x"], coords=coords, attrs=attrs, name="r")
+    return xr.DataArray(d, dims=[dy, dx], coords=coords, attrs=attrs, name="r")
 
 
 def call(job, rasters):
